@@ -229,7 +229,9 @@ func generate(prop, tier string, seed uint64, jl *jobList) int {
 		genLeafRuns(r, leafKinds(), budgets, true, jl.addFlow)
 		genWaitCancelRuns(r, leafKinds(), jl.addFlow)
 		genSelfNest(r, jl.addFlow)
+		genTwins(r, jl.addFlow)
 	case "C02":
+		genTwins(r, jl.addFlow)
 		genSelfNest(r, jl.addFlow)
 		genLeafRuns(r, leafKinds(), []int{1, 2, 3, 4, 5, 6, 7, 8}, thorough, jl.addFlow)
 		genWaitCancelRuns(r, leafKinds(), jl.addFlow)
